@@ -81,7 +81,7 @@ Section Reorg.
   Lemma generated_reorg_depth (fl : flavour) k h (nd : node E) :
     0 <= k < 9223372036854775807 -> - 9223372036854775808 <= n_number nd < 9223372036854775808 ->
     - 9223372036854775808 <= fl_depth fl < 9223372036854775808 ->
-    num_reorged fl k h nd = gen_multi_reorg_depth (n_number nd) k (bytes_eqb (n_parent nd) h) (fl_depth fl).
+    num_reorged fl k h nd = gen_multi_reorg_depth (n_number nd) k (bytes_eqb (n_parent nd) h) (Z.of_nat (length h)) (fl_depth fl).
   Proof.
     intros Hk Hn Hd. rewrite model_num_reorged_unfold. unfold gen_multi_reorg_depth. cbv zeta.
     repeat rewrite gen_i64_small by lia.
@@ -91,7 +91,7 @@ Section Reorg.
   Lemma generated_registry_num_reorged (fl : flavour) k h (nd : node E) :
     fl_depth fl = registry_assumed_reorg_depth ->
     0 <= k < 9223372036854775807 -> - 9223372036854775808 <= n_number nd < 9223372036854775808 ->
-    num_reorged fl k h nd = gen_registry_num_reorged (n_number nd) k (bytes_eqb (n_parent nd) h).
+    num_reorged fl k h nd = gen_registry_num_reorged (n_number nd) k (bytes_eqb (n_parent nd) h) (Z.of_nat (length h)).
   Proof.
     intros Hfd Hk Hn. rewrite model_num_reorged_unfold, Hfd. unfold gen_registry_num_reorged, registry_assumed_reorg_depth. cbv zeta.
     repeat rewrite gen_i64_small by lia.
@@ -101,7 +101,7 @@ Section Reorg.
   Lemma generated_sequencer_num_reorged (fl : flavour) k h (nd : node E) :
     fl_depth fl = sequencer_assumed_reorg_depth ->
     0 <= k < 9223372036854775807 -> - 9223372036854775808 <= n_number nd < 9223372036854775808 ->
-    num_reorged fl k h nd = gen_sequencer_num_reorged (n_number nd) k (bytes_eqb (n_parent nd) h).
+    num_reorged fl k h nd = gen_sequencer_num_reorged (n_number nd) k (bytes_eqb (n_parent nd) h) (Z.of_nat (length h)).
   Proof.
     intros Hfd Hk Hn. rewrite model_num_reorged_unfold, Hfd. unfold gen_sequencer_num_reorged, sequencer_assumed_reorg_depth. cbv zeta.
     repeat rewrite gen_i64_small by lia.
